@@ -244,12 +244,17 @@ func judgeC09(rc *RunCtx, cr *CheckRun, N int, staleFiles int) {
 	if staleFiles > 0 && len(cr.ByPhase("failfile")) > 0 {
 		rc.Inc("probe.failfile_replayed_first")
 	}
-	switch cr.Verdict {
+	verdict := cr.Verdict
+	if verdict == "none" && !w.TB.failed && w.StopWhy == "return" {
+		verdict = "pass" // passing without saying so is passing
+	}
+	switch verdict {
 	case "pass":
-		m := reOKn.FindStringSubmatch(cr.VerdictText)
-		rep, _ := strconv.Atoi(m[1])
-		if rep != c.valid {
-			rc.V(viol("C09.R1", "count-mismatch", "reported %d passed tests but %d random test cases ended normally", rep, c.valid))
+		if m := reOKn.FindStringSubmatch(cr.VerdictText); m != nil {
+			rep, _ := strconv.Atoi(m[1])
+			if rep != c.valid {
+				rc.V(viol("C09.R1", "count-mismatch", "reported %d passed tests but %d random test cases ended normally", rep, c.valid))
+			}
 		}
 		if c.failed > 0 {
 			rc.V(viol("C09.R1", "pass-with-failure", "OK although %d cases signalled failure", c.failed))
@@ -275,7 +280,7 @@ func judgeC09(rc *RunCtx, cr *CheckRun, N int, staleFiles int) {
 		}
 		// no further invocation after the verdict
 		for _, inv := range w.Invs {
-			if inv.SeqBegin > cr.VerdictSeq {
+			if cr.VerdictSeq > 0 && inv.SeqBegin > cr.VerdictSeq {
 				rc.V(viol("C09.R1", "invocation-after-ok", "property invoked (inv %d) after the OK verdict", inv.Idx))
 				break
 			}
@@ -330,7 +335,10 @@ func judgeC09(rc *RunCtx, cr *CheckRun, N int, staleFiles int) {
 			rc.V(viol("C09.R4", "multi-repro", "%d reproduction runs", len(cr.ByPhase("repro"))))
 		}
 		rc.Inc("probe.failing_run")
-	case "none", "other":
-		rc.V(viol("C09.R1", "no-verdict", "Check ended without a recognisable verdict (stop=%s, text=%q)", w.StopWhy, cr.VerdictText))
+	case "other":
+		// an error report this harness cannot read: its vocabulary is out of date, which is trouble, not a verdict
+		rc.V(viol("harness", "unrecognised-report", "Check reported an error in words this harness does not know: %q", oneLine(cr.VerdictText, 200)))
+	case "none":
+		rc.V(viol("C09.R1", "no-verdict", "Check ended with the test failed or stopped but without any report (stop=%s failed=%v)", w.StopWhy, w.TB.failed))
 	}
 }
